@@ -170,6 +170,17 @@ pub struct Envelope {
     pub from: u64,
     pub to: u64,
     pub msg: PMsg,
+    /// ghost data per node delta of the message: member -> (sender horizon = max(gc, max) of the
+    /// sender's copy when the delta was computed, sender copy tainted by the KF-1 pattern)
+    pub ghost: BTreeMap<ChitchatId, (u64, bool)>,
+}
+
+/// One write of an owner, as recorded by the harness when the owner performed it.
+#[derive(Debug, Clone, PartialEq)]
+pub struct LedgerWrite {
+    pub key: String,
+    pub value: String,
+    pub status: u8,
 }
 
 pub struct Exec {
@@ -181,6 +192,11 @@ pub struct Exec {
     pub case_id: String,
     pub hits: Vec<String>,
     pub tie_skips: u64,
+    /// ghost ledger: owner id -> every write it ever made (index = version - 1); `None` once the
+    /// owner's namespace was overwritten behind the API (setcopy), which disables the ledger checks
+    pub ledger: BTreeMap<ChitchatId, Option<Vec<LedgerWrite>>>,
+    /// copies (slot, member) that went through the KF-1 pattern (or were fed by one that did)
+    pub tainted: BTreeSet<(u64, ChitchatId)>,
 }
 
 pub fn to_pdelta(delta: &verif::Delta) -> PDelta {
@@ -248,7 +264,7 @@ impl Exec {
             let _g = rt.enter();
             Instant::now()
         };
-        Exec { rt, start, nodes: BTreeMap::new(), soup: Vec::new(), poisoned: false, case_id: String::new(), hits: Vec::new(), tie_skips: 0 }
+        Exec { rt, start, nodes: BTreeMap::new(), soup: Vec::new(), poisoned: false, case_id: String::new(), hits: Vec::new(), tie_skips: 0, ledger: BTreeMap::new(), tainted: BTreeSet::new() }
     }
 
     pub fn now_ticks(&self) -> u64 {
@@ -432,21 +448,85 @@ impl Exec {
             to_pmsg(&verif::cc_create_syn_message(&self.nodes.get(&from)?.cc))
         };
         out.push((plist("syn", [from.to_string()]), p_msg(&syn)));
-        let (l, o, synack) = self.process_msg(to, &syn)?;
+        // C12: a SYN never mentions a member scheduled for deletion
+        {
+            let _g = self.rt.enter();
+            let sched: Vec<ChitchatId> = self.nodes.get(&from)?.cc.scheduled_for_deletion_nodes().cloned().collect();
+            if let PMsg::Syn { digest, .. } = &syn {
+                if digest.iter().any(|e| sched.contains(&e.chitchat_id)) {
+                    self.monitor_hit("C12", "quarantine", "a SYN mentions a member the sender has seen dead for more than half the grace period");
+                }
+            }
+        }
+        let before: Vec<(u64, ChitchatId, (u64, u64))> = [from, to]
+            .iter()
+            .flat_map(|s| {
+                self.nodes.get(s).map(|c| {
+                    c.cc.node_states().iter().map(|(id, ns)| (*s, id.clone(), (ns.last_gc_version(), ns.max_version()))).collect::<Vec<_>>()
+                }).unwrap_or_default()
+            })
+            .collect();
+        let (l, o, synack, g1) = self.process_msg_ghost(to, &syn, None)?;
         out.push((l, o));
         let Some(synack) = synack else { return Some(out) };
         if self.poisoned {
             return Some(out);
         }
-        let (l, o, ack) = self.process_msg(from, &synack)?;
+        let (l, o, ack, g2) = self.process_msg_ghost(from, &synack, Some(&g1))?;
         out.push((l, o));
         let Some(ack) = ack else { return Some(out) };
         if self.poisoned {
             return Some(out);
         }
-        let (l, o, _) = self.process_msg(to, &ack)?;
+        let (l, o, _, _) = self.process_msg_ghost(to, &ack, Some(&g2))?;
         out.push((l, o));
+        // C01 (per handshake): if one side held newer deliverable data about an advertised member,
+        // some lagging copy strictly advanced
+        self.handshake_progress_check(from, to, &before);
         Some(out)
+    }
+
+    fn handshake_progress_check(&mut self, a: u64, b: u64, before: &[(u64, ChitchatId, (u64, u64))]) {
+        let get = |s: u64, id: &ChitchatId| before.iter().find(|e| e.0 == s && &e.1 == id).map(|e| e.2);
+        let _g = self.rt.enter();
+        let (Some(ca), Some(cb)) = (self.nodes.get(&a), self.nodes.get(&b)) else { return };
+        if ca.cc.cluster_id() != cb.cc.cluster_id() {
+            return;
+        }
+        let sched_a: Vec<ChitchatId> = ca.cc.scheduled_for_deletion_nodes().cloned().collect();
+        let sched_b: Vec<ChitchatId> = cb.cc.scheduled_for_deletion_nodes().cloned().collect();
+        let ids: BTreeSet<ChitchatId> = before.iter().map(|e| e.1.clone()).collect();
+        let mut lagging = false;
+        let mut progressed = false;
+        let mut detail = String::new();
+        for id in &ids {
+            if sched_a.contains(id) || sched_b.contains(id) {
+                continue; // not advertised by both sides
+            }
+            if verif::cc_last_heartbeat_if_deleted(&ca.cc, id).is_some() || verif::cc_last_heartbeat_if_deleted(&cb.cc, id).is_some() {
+                continue; // removed after the grace period: only a fresher heartbeat re-creates it (C12)
+            }
+            let fa = get(a, id).unwrap_or((0, 0));
+            let fb = get(b, id).unwrap_or((0, 0));
+            if fa.1 != fb.1 {
+                lagging = true;
+                detail.push_str(&format!("{:?}: {a}:{fa:?} {b}:{fb:?}; ", id.node_id));
+            }
+            let na = ca.cc.node_state(id).map(|s| (s.last_gc_version(), s.max_version())).unwrap_or((0, 0));
+            let nb = cb.cc.node_state(id).map(|s| (s.last_gc_version(), s.max_version())).unwrap_or((0, 0));
+            if na > fa || nb > fb {
+                progressed = true;
+            }
+            if na < fa || nb < fb {
+                drop(_g);
+                self.monitor_hit("C04", "frontier", &format!("a handshake lowered the frontier of a copy of {:?}", id.node_id));
+                return;
+            }
+        }
+        drop(_g);
+        if lagging && !progressed {
+            self.monitor_hit("C01", "handshake-no-progress", &format!("complete handshake {a} -> {b}: the copies of an advertised member differed but no copy advanced (member: node:(gc,max) before) {detail}"));
+        }
     }
 
     /// `(mtusweep slot digest sched)`: the delta for budgets around every block / size boundary.
@@ -544,6 +624,109 @@ impl Exec {
             }
         }
         Some(out)
+    }
+
+    /// Appends to the owner's ledger the writes its reference map performed since the last call.
+    fn extend_ledger(&mut self, slot: u64) {
+        let Some(ctx) = self.nodes.get(&slot) else { return };
+        let id = ctx.id.clone();
+        let refmap = ctx.refmap.clone();
+        let entry = self.ledger.entry(id).or_insert_with(|| Some(Vec::new()));
+        let Some(ledger) = entry else { return };
+        while (ledger.len() as u64) < refmap.max {
+            let v = ledger.len() as u64 + 1;
+            match refmap.kvs.iter().find(|(_, e)| e.1 == v) {
+                Some((k, e)) => ledger.push(LedgerWrite { key: k.clone(), value: e.0.clone(), status: e.2 }),
+                None => {
+                    // the write at version v was already overwritten before we looked: cannot happen
+                    // when called after every single write
+                    *entry = None;
+                    return;
+                }
+            }
+        }
+    }
+
+    /// C02 / C03 on one copy, stated against the owner's ledger. Returns (property, detail).
+    fn ledger_violations(&self, slot: u64, member: &ChitchatId) -> Vec<(&'static str, String)> {
+        let mut out = Vec::new();
+        let Some(Some(ledger)) = self.ledger.get(member) else { return out };
+        let Some(ctx) = self.nodes.get(&slot) else { return out };
+        if ctx.id == *member {
+            return out;
+        }
+        let Some(copy) = self.snapshot_copy(slot, member) else { return out };
+        // C03: every entry is the owner's write at that version; nobody runs ahead
+        for (k, v, ver, st, _) in &copy.kvs {
+            let ok = *ver >= 1
+                && (*ver as usize) <= ledger.len()
+                && {
+                    let w = &ledger[*ver as usize - 1];
+                    &w.key == k && &w.value == v && w.status == *st
+                };
+            if !ok {
+                out.push(("C03", format!("node {slot} holds {k:?}={v:?}@{ver} (status {st}) for member {:?}, which the owner never wrote at that version", member.node_id)));
+            }
+        }
+        if copy.max_version as usize > ledger.len() {
+            out.push(("C03", format!("node {slot}: copy of {:?} has max version {} but the owner is at {}", member.node_id, copy.max_version, ledger.len())));
+        }
+        let owner_hb = self.nodes.values().find(|c| c.id == *member).and_then(|c| c.cc.node_state(member).map(|s| u64::from(s.heartbeat())));
+        if let Some(ohb) = owner_hb {
+            if copy.heartbeat > ohb {
+                out.push(("C03", format!("node {slot}: heartbeat {} recorded for {:?} exceeds the owner's {}", copy.heartbeat, member.node_id, ohb)));
+            }
+        }
+        // C02: exact up to the frontier
+        let mut last: BTreeMap<&str, (u64, &LedgerWrite)> = BTreeMap::new();
+        for (i, w) in ledger.iter().enumerate() {
+            let v = i as u64 + 1;
+            if v <= copy.max_version {
+                last.insert(w.key.as_str(), (v, w));
+            }
+        }
+        // only keys whose *most recent* write overall is within the frontier are constrained
+        let mut newest: BTreeMap<&str, u64> = BTreeMap::new();
+        for (i, w) in ledger.iter().enumerate() {
+            newest.insert(w.key.as_str(), i as u64 + 1);
+        }
+        for (k, (v, w)) in &last {
+            if newest.get(k) != Some(v) {
+                continue; // written again beyond the copy's frontier: unconstrained
+            }
+            let held = copy.kvs.iter().find(|e| e.0 == *k);
+            let ok = match held {
+                Some((_, val, ver, st, _)) => ver == v && *val == w.value && *st == w.status,
+                None => w.status != 0 && *v <= copy.last_gc,
+            };
+            if !ok {
+                out.push(("C02", format!(
+                    "node {slot}, member {:?}, key {k:?}: the owner's latest write is v{v} (status {}), the copy (gc {}, max {}) holds {:?}",
+                    member.node_id, w.status, copy.last_gc, copy.max_version, held.map(|e| (e.1.clone(), e.2, e.3)))));
+            }
+        }
+        out
+    }
+
+    fn run_ledger_checks(&mut self, slot: u64) {
+        let members: Vec<ChitchatId> = match self.nodes.get(&slot) {
+            Some(c) => c.cc.node_states().keys().cloned().collect(),
+            None => return,
+        };
+        for m in members {
+            let tainted = self.tainted.contains(&(slot, m.clone()));
+            for (p, d) in self.ledger_violations(slot, &m) {
+                if p == "C02" && tainted {
+                    self.monitor_hit_sig("C02", "KF-1", &d);
+                } else {
+                    self.monitor_hit(p, "ledger", &d);
+                }
+            }
+        }
+    }
+
+    pub fn monitor_hit_sig(&mut self, property: &str, signature: &str, detail: &str) {
+        self.monitor_hit(property, signature, detail)
     }
 
     /// Re-bases the reference map of a node on its actual own copy (after `new` / `setcopy`).
@@ -735,6 +918,8 @@ impl Exec {
         if head == "case" {
             self.nodes.clear();
             self.soup.clear();
+            self.ledger.clear();
+            self.tainted.clear();
             self.poisoned = false;
             let _g = self.rt.enter();
             self.start = Instant::now();
@@ -768,6 +953,7 @@ impl Exec {
     ) -> Option<(String, String)> {
         let now = self.now_ticks();
         rf(&mut self.nodes.get_mut(&slot)?.refmap, now);
+        self.extend_ledger(slot);
         let what = line.clone();
         let _g = self.rt.enter();
         let r = {
@@ -879,6 +1065,7 @@ impl Exec {
                 let ctx = NodeCtx { calls: Arc::new(Mutex::new(Vec::new())), handles: BTreeMap::new(), active: BTreeMap::new(), refmap: RefMap::default(), grace, cc, id: id.clone(), events, callbacks, publishes: 0, fd_params: Some((f[0].nat()?, f[1].nat()?, f[4].nat()?)), max_interval: f[3].nat()?, pred: pred_spec.clone(), hbtrack: BTreeMap::new(), watch_rx, _seeds_tx: seeds_tx };
                 self.nodes.insert(slot, ctx);
                 self.resync_ref(slot);
+                self.extend_ledger(slot);
                 let node = self.p_node(slot);
                 let _ = init_events;
                 Some((line, plist("ok", [node])))
@@ -919,6 +1106,7 @@ impl Exec {
                     ctx.refmap.gc(now, grace);
                 }
                 self.check_own_copy(slot, &["C06"], "gc pass");
+                self.run_ledger_checks(slot);
                 let node = self.p_node(slot);
                 Some((line, plist("ok", [node])))
             }
@@ -969,6 +1157,14 @@ impl Exec {
                 if let Some(ctx) = self.nodes.get_mut(&slot) {
                     ctx.hbtrack.insert(id.clone(), (copy.heartbeat, 0, 0));
                 }
+                if self.nodes.get(&slot).map(|c| c.id == id).unwrap_or(false) {
+                    self.ledger.insert(id.clone(), None);
+                }
+                // a copy written behind the protocol's back says nothing about the protocol
+                self.tainted.remove(&(slot, id.clone()));
+                if !self.nodes.values().any(|c| c.id == id) {
+                    self.ledger.remove(&id);
+                }
                 self.resync_ref(slot);
                 let node = self.p_node(slot);
                 Some((line, plist("ok", [node])))
@@ -987,7 +1183,7 @@ impl Exec {
                 let msg = verif::cc_create_syn_message(&self.nodes.get(&from)?.cc);
                 let pm = to_pmsg(&msg);
                 let out = p_msg(&pm);
-                self.soup.push(Envelope { from, to, msg: pm });
+                self.soup.push(Envelope { from, to, msg: pm, ghost: BTreeMap::new() });
                 Some((plist("syn", [from.to_string()]), out))
             }
             "deliver" => {
@@ -999,9 +1195,9 @@ impl Exec {
                 if !self.nodes.contains_key(&env.to) {
                     return Some(("(nop)".into(), "(nop)".into()));
                 }
-                let (l, o, reply) = self.process_msg(env.to, &env.msg)?;
+                let (l, o, reply, ghost) = self.process_msg_ghost(env.to, &env.msg, Some(&env.ghost))?;
                 if let Some(reply) = reply {
-                    self.soup.push(Envelope { from: env.to, to: env.from, msg: reply });
+                    self.soup.push(Envelope { from: env.to, to: env.from, msg: reply, ghost });
                 }
                 Some((l, o))
             }
@@ -1651,7 +1847,43 @@ impl Exec {
     /// Runs `process_message` on the node in `slot`. Returns the model line, the observation and
     /// the reply.
     pub fn process_msg(&mut self, slot: u64, pm: &PMsg) -> Option<(String, String, Option<PMsg>)> {
+        let (l, o, r, _) = self.process_msg_ghost(slot, pm, None)?;
+        Some((l, o, r))
+    }
+
+    /// `process_msg` with the ghost provenance of the incoming delta; also returns the ghost data of
+    /// the reply's delta.
+    pub fn process_msg_ghost(
+        &mut self,
+        slot: u64,
+        pm: &PMsg,
+        ghost: Option<&BTreeMap<ChitchatId, (u64, bool)>>,
+    ) -> Option<(String, String, Option<PMsg>, BTreeMap<ChitchatId, (u64, bool)>)> {
         let msg = from_pmsg(pm);
+        // KF-1 bookkeeping: which copies are fed by a sender that is behind the copy's watermark
+        let mut taint_updates: Vec<(ChitchatId, Option<bool>)> = Vec::new();
+        if let (Some(ghost), Some(ctx)) = (ghost, self.nodes.get(&slot)) {
+            let delta = match pm {
+                PMsg::SynAck { delta, .. } | PMsg::Ack { delta } => Some(delta),
+                _ => None,
+            };
+            if let Some(delta) = delta {
+                for nd in &delta.node_deltas {
+                    let Some((horizon, sender_tainted)) = ghost.get(&nd.chitchat_id) else { continue };
+                    let Some(r) = ctx.cc.node_state(&nd.chitchat_id) else { continue };
+                    match verif::node_check_delta_status(r, nd) {
+                        1 => {
+                            let pattern = r.last_gc_version() > nd.max_version && r.last_gc_version() > *horizon;
+                            if pattern || *sender_tainted {
+                                taint_updates.push((nd.chitchat_id.clone(), Some(true)));
+                            }
+                        }
+                        2 => taint_updates.push((nd.chitchat_id.clone(), Some(*sender_tainted))),
+                        _ => {}
+                    }
+                }
+            }
+        }
         // the heartbeats of the digest, as the specification sees them
         let own_cluster = match pm {
             PMsg::Syn { cluster_id, .. } => self.nodes.get(&slot).map(|c| c.cc.cluster_id() == cluster_id).unwrap_or(false),
@@ -1758,8 +1990,55 @@ impl Exec {
                 if let Some((n, sl)) = lenmismatch {
                     self.monitor_hit("C08", "announced-length", &format!("reply announces {sl} bytes but serializes to {n}"));
                 }
+                for (id, t) in taint_updates {
+                    match t {
+                        Some(true) => {
+                            self.tainted.insert((slot, id));
+                        }
+                        Some(false) => {
+                            self.tainted.remove(&(slot, id));
+                        }
+                        None => {}
+                    }
+                }
+                self.run_ledger_checks(slot);
+                // ghost data of the reply's delta + C12 quarantine on everything the reply mentions
+                let mut reply_ghost: BTreeMap<ChitchatId, (u64, bool)> = BTreeMap::new();
+                if let Some(reply) = &reply_p {
+                    let (rdigest, rdelta): (Option<&Vec<VNodeDigest>>, Option<&PDelta>) = match reply {
+                        PMsg::SynAck { digest, delta } => (Some(digest), Some(delta)),
+                        PMsg::Ack { delta } => (None, Some(delta)),
+                        PMsg::Syn { digest, .. } => (Some(digest), None),
+                        PMsg::BadCluster => (None, None),
+                    };
+                    let sched: Vec<ChitchatId> = {
+                        let _g = self.rt.enter();
+                        self.nodes.get(&slot)?.cc.scheduled_for_deletion_nodes().cloned().collect()
+                    };
+                    let mut mentioned: Vec<&ChitchatId> = Vec::new();
+                    if let Some(d) = rdigest {
+                        mentioned.extend(d.iter().map(|e| &e.chitchat_id));
+                    }
+                    if let Some(d) = rdelta {
+                        mentioned.extend(d.node_deltas.iter().map(|nd| &nd.chitchat_id));
+                        for nd in &d.node_deltas {
+                            if let Some(c) = self.snapshot_copy(slot, &nd.chitchat_id) {
+                                reply_ghost.insert(
+                                    nd.chitchat_id.clone(),
+                                    (c.last_gc.max(c.max_version), self.tainted.contains(&(slot, nd.chitchat_id.clone()))),
+                                );
+                            }
+                        }
+                    }
+                    for id in mentioned {
+                        if sched.contains(id) {
+                            self.monitor_hit("C12", "quarantine", &format!("a reply mentions member {:?}, which the sender has seen dead for more than half the grace period", id.node_id));
+                            break;
+                        }
+                    }
+                }
                 let node = self.p_node(slot);
-                Some((l, plist("ok", [fx, wire, node]), reply_p))
+                Some((l, plist("ok", [fx, wire, node]), reply_p, reply_ghost))
             }
             Err(_) => {
                 self.poisoned = true;
@@ -1770,7 +2049,7 @@ impl Exec {
                     self.monitor_hit("C09", "process-abort", &d);
                     self.monitor_hit("C04", "process-abort", &d);
                 }
-                Some((l, p_panic(&desc), None))
+                Some((l, p_panic(&desc), None, BTreeMap::new()))
             }
         }
     }
